@@ -411,7 +411,7 @@ def run(ctx):
     quick = ctx.quick
     _CFG["salt"] = ctx.seed
     _CFG["targets"] = ["J1a", "J1b", "P1"] if quick else ["J1a", "J1b", "J2", "P1", "P2"]
-    _CFG["ops"] = OPS[:17] if quick else OPS
+    _CFG["ops"] = OPS[:17] + [("set", "x", None)] if quick else OPS
     _CFG["caps"] = [None, 30] if quick else [None, 0, 30, 200]
     depth = 3 if quick else 4 if len(_CFG["targets"]) <= 3 else 3
     # thorough: depth 4 on the small target set, depth 3 on the large one
